@@ -92,6 +92,11 @@ bool Hist::opAddParam() {
     int gsel = rng.range(0, 9);
     if (gsel < 4 || gnames.empty()) group = (gnames.size() < 9) ? freshName("Grp", gnames) : gnames[rng.below(gnames.size())];
     else group = gnames[rng.below(gnames.size())];
+    if (o.profile == "c09" && !gnames.empty() && prev.groups.size() < 120 && rng.chance(8)) {
+        // a group name that differs from an existing one by case only: group names are compared exactly, so this creates a NEW group
+        std::string base = gnames[rng.below(gnames.size())], v = base; for (size_t i = 0; i < v.size(); ++i) v[i] = (char)(isupper((unsigned char)v[i]) ? tolower((unsigned char)v[i]) : toupper((unsigned char)v[i]));
+        if (v != base && prev.findGroup(v) < 0) { group = v; caseVariantNames = true; }
+    }
     if (prev.findGroup(group) < 0 && prev.groups.size() >= 127 && !gnames.empty()) group = gnames[rng.below(gnames.size())];   // group ids are positions: a 128th slot is beyond the format (refusal covered by C17)
     int gi = prev.findGroup(group);
     std::vector<std::string> pnames; if (gi >= 0) for (size_t q = 0; q < prev.groups[gi].params.size(); ++q) pnames.push_back(prev.groups[gi].params[q].name);
@@ -164,6 +169,15 @@ bool Hist::opParamSet() {
         std::string pg = "PROBES"; if (prev.findGroup(pg) < 0 && prev.groups.size() >= 127) pg = "FORCE_PLATFORM"; if (prev.findGroup(pg) < 0 && prev.groups.size() >= 127) pg = "POINT";   /* no 128th group slot (see DESIGN 9.7) */
         log.pre("parameter"); Outcome ao; VF_TRY(ao, obj->parameter(pg, p)); log.ev("add_param_after_refused_set", "name=" + p.name(), ao); bump("op:add_param_after_refused_set");
         afterMutator("add_param_after_refused_set", ao);
+    }
+    if (!oc.threw) {
+        bump("c11_typed_after_reset");
+        const char* gn[3] = {"valuesAsInt", "valuesAsFloat", "valuesAsString"};
+        for (int g = 0; g < 3; ++g) { if (g == type) continue; Outcome go;
+            try { if (g == 0) (void)p.valuesAsInt().size(); else if (g == 1) (void)p.valuesAsFloat().size(); else (void)p.valuesAsString().size(); } catch (const std::exception& e) { go = classify(e); }
+            if (!go.threw) log.viol("C11", std::string("typed/other_type_returned_after_reset/") + gn[g], a.str() + " (the parameter held " + (t0 == 0 ? "int" : t0 == 1 ? "float" : "string") + " values before)");
+            else if (!satisfies(go.cls, "invalid_argument")) log.viol("C11", std::string("typed/other_type_wrong_class_after_reset/") + gn[g] + "/" + go.cls, a.str()); }
+        { Outcome bo; try { (void)p.valuesAsByte().size(); } catch (const std::exception& e) { bo = classify(e); } if (!bo.threw) log.viol("C11", "typed/other_type_returned_after_reset/valuesAsByte", a.str()); }
     }
     if (!oc.threw) {
         std::vector<size_t> want = nd ? dims : std::vector<size_t>(1, n);
